@@ -137,6 +137,22 @@ func runC18(cfg *vh.Config) error {
 		prof.Comments = r.Chance(25)
 		prof.Collide = len(cases) == 1 || len(cases) == 2 || len(cases) == 12
 		prof.Clash = len(cases) == 4 || len(cases) == 14
+		switch len(cases) {
+		case 6:
+			prof.FlatCycle = 2
+		case 16:
+			prof.FlatCycle = 3
+		case 26:
+			prof.FlatCycle = -2
+		case 36:
+			prof.FlatCycle = 1
+		case 8:
+			prof.FlatDeep = 3
+		case 18:
+			prof.FlatDeep = 4
+		case 28:
+			prof.FlatDeep = 5
+		}
 		c := descgen.Generate(r.Fork(fmt.Sprintf("case%d-%d", len(cases), invalid)), prof, deps)
 		if len(cases)%10 == 3 {
 			// a valid j5s package compiled by the real compiler (the C02 generator)
@@ -296,7 +312,11 @@ func runC18(cfg *vh.Config) error {
 				if len(o.Sub) >= 2 {
 					dup, unres = o.Sub[0] == "dup", o.Sub[1] == "unresolved"
 				}
-				terms = append(terms, fmt.Sprintf("OClient %s %d %v %v", descgen.Str(arg), classN[o.Class], dup, unres))
+				paths := o.Term
+				if paths == "" {
+					paths = "[]"
+				}
+				terms = append(terms, fmt.Sprintf("OClient %s %d %v %v %s", descgen.Str(arg), classN[o.Class], dup, unres, paths))
 			case "newroot":
 				if bad {
 					fail(fmt.Sprintf("C18 Reflector.NewRoot -> %s in %s: %s", o.Class, o.Site, normMsg(o.Msg)), "never panics", o.Msg)
